@@ -661,7 +661,7 @@ def compose(template_text, repo_root, read_file):
         body = re.sub(r"/\*@(SPEC|LOOP|GHOST)-BEGIN.*?/\*@(?:SPEC|LOOP|GHOST)-END\*/", " ", body, flags=re.S)
         body = re.sub(r"//[^\n]*", "", body)
         found = []
-        for m in re.finditer(r"(?:(?<=[(,=])|(?<=[(,=]\s)|\bmove\s)\s*(?:move\s+)?\|([^|{}();]*)\|\s*(\S{0,8})", body):
+        for m in re.finditer(r"(?:[(,=]|\breturn\b|\bmove\b)\s*(?:move\s+)?\|([^|{}();]*)\|\s*(\S{0,8})", body):
             nxt = m.group(2)
             if nxt.startswith("->") or nxt.startswith("requires") or nxt.startswith("ensures"):
                 continue
